@@ -2424,6 +2424,15 @@ class SEVM:
         pranked_caller, pranked_origin = ex.resolve_prank(to)
         arg = ex.st.mslice(arg_loc, arg_size)
 
+        # the output area belongs to the active memory from the moment of the call,
+        # however many bytes the callee returns (observable through MSIZE)
+        if ret_size:
+            if ret_loc + ret_size > MAX_MEMORY_SIZE:
+                raise OutOfGasError(
+                    f"memory write {ret_loc=} {ret_size=} > MAX_MEMORY_SIZE"
+                )
+            ex.st.mexpand(ret_loc + ret_size)
+
         resolved_to = to_alias if to_alias is not None else to
         message = Message(
             target=resolved_to if op in [OP_CALL, OP_STATICCALL] else ex.this(),
